@@ -43,23 +43,26 @@ def main(tier, only=None):
         "%d (skip_cond_incl) / %d (skip_cond_incl2) lines" % (n_guard, n_skip, n_skip2),
     ]
     chk.outside += [
-        "#if arithmetic (C07); nesting > 3; ill-formed directive sequences (diagnostics); `#` null directive "
-        "followed by a line that starts with a directive name",
+        "#if arithmetic (C07); nesting > 3; ill-formed directive sequences (diagnostics); a line after a null directive that starts "
+        "with `if`/`ifdef`/`ifndef`/`elif` (the `else`/`endif` spellings are inside)",
         "-include/-D/-U interplay; #pragma once; include cache across more than 3 searches",
         "include_next_idx after an #include resolved in the includer's own directory",
     ]
     hs = []
     if want("cond"):
-        for key, fn, n, u1, cuts in (
-                ("cond/select", "h_select", n_sel, n_sel + 2, CUTS + ("skip_cond_incl:spec1",)),
-                ("cond/trailing-tokens", "h_select_junk", n_junk, 2 * n_junk + 2, CUTS + ("skip_cond_incl:spec1",)),
-                ("cond/skip1", "h_skip1", n_skip, 0, ("skip_cond_incl2:spec2",)),
-                ("cond/skip2", "h_skip2", n_skip2, 0, ())):
+        for key, fn, n, u1, cuts, extra in (
+                ("cond/select", "h_select", n_sel, 2 * n_sel + 2, CUTS + ("skip_cond_incl:spec1",), ()),
+                ("cond/trailing-tokens", "h_select_junk", n_junk, 2 * n_junk + 2, CUTS + ("skip_cond_incl:spec1",), ()),
+                ("cond/skip1", "h_skip1", n_skip, 0, ("skip_cond_incl2:spec2",), ()),
+                # the real recursion of skip_cond_incl2 does not finish with the null-directive lines at 4 lines (> 2400 s):
+                # the full nesting is proved without them, and the null-directive lines on 3 lines
+                ("cond/skip2", "h_skip2", n_skip2, 0, (), ("NO_NULLD",)),
+                ("cond/skip2-null-directive", "h_skip2", 3, 0, (), ())):
             us = ["skip_line.0:3", "preprocess2.0:2", "skip_cond_incl2:4"]
             if u1:
                 us.append("preprocess2.1:%d" % u1)
-            hs.append(e1.H(fn, key, unwind=3 * n + 3, unwindset=us, defines=("NITEMS=%d" % n, "HK_" + fn),
-                           replace_calls=cuts, flags=NOPTR, timeout=1500 if thorough else 600,
+            hs.append(e1.H(fn, key, unwind=3 * n + 3, unwindset=us, defines=("NITEMS=%d" % n, "HK_" + fn) + extra,
+                           replace_calls=cuts, flags=NOPTR, timeout=2400 if thorough else 1200,
                            desc="%d lines" % n))
     if want("guard"):
         hs.append(e1.H("h_guard", "guard/sound", unwind=3 * n_guard + 3, defines=("NITEMS=%d" % n_guard, "HK_guard"),
